@@ -31,6 +31,7 @@ class Compiler:
         self.next_internal_symbol_prefix = 1
         self.times_file_compiled = collections.defaultdict(int)
         self.internal_prefix_to_state = {}
+        self.unfinished_internal_prefixes = set()
 
 
     def compile_file(self, file, start, link_base):
@@ -46,7 +47,11 @@ class Compiler:
         }
         self.internal_prefix_to_state[self.next_internal_symbol_prefix] = state
         self.next_internal_symbol_prefix += 1
-        return self.compile_block(state, file.body, start)
+        self.unfinished_internal_prefixes.add(state["internal_symbol_prefix"])
+        try:
+            return self.compile_block(state, file.body, start)
+        finally:
+            self.unfinished_internal_prefixes.discard(state["internal_symbol_prefix"])
 
 
     def compile_block(self, state, block, start):
